@@ -154,6 +154,27 @@ Theorem C17_head :
 Proof. exact head_lemma. Qed.
 Print Assumptions C17_head.
 
+(* Presentation arguments (mimetype= / charset= / download=, static_file l.86-98;
+   mimetypes.guess_type is an oracle): every accepted Content-Encoding /
+   Content-Type / Content-Disposition value is free of CR, LF and NUL (otherwise
+   the call raises ValueError before anything is opened), and the file name
+   offered for download is a base name without '/'.  sf_serve (status, lengths,
+   ranges, body) does not take these arguments at all; the correspondence runs
+   them as riders on every kind of request. *)
+Theorem C17_presentation_headers :
+  forall filename guess mimetype charset download e t d,
+    sf_present filename guess mimetype charset download = Some (e, t, d) ->
+    (forall v, e = Some v \/ t = Some v \/ d = Some v -> has_ctl v = false)
+    /\ match download with
+       | DNo => d = None
+       | DTrue => d = Some (s_attach ++ basename filename ++ [34%N])
+                  /\ contains_char N.eqb SEP (basename filename) = false
+       | DName n => d = Some (s_attach ++ basename n ++ [34%N])
+                    /\ contains_char N.eqb SEP (basename n) = false
+       end.
+Proof. exact present_lemma. Qed.
+Print Assumptions C17_presentation_headers.
+
 (* ---- non-vacuity ---- *)
 Local Open Scope N_scope.
 Definition ex_file : list N := [48; 49; 50; 51; 52; 53; 54; 55; 56; 57].
